@@ -35,7 +35,7 @@ pub fn calendar_strategy() -> BoxedStrategy<(Calendar, Vec<Date>, Date, Date)> {
                 let weekend = matches!(d.weekday(), Weekday::Saturday | Weekday::Sunday);
                 let h = hol[k % hol.len()].wrapping_mul(31).wrapping_add((k as u16).wrapping_mul(7919));
                 if !weekend && h % 25 != 0 {
-                    let x = (h as u32 * 2654435761u32.wrapping_add(k as u32)) % 3500;
+                    let x = (h as u32).wrapping_mul(2654435761u32.wrapping_add(k as u32)) % 3500;
                     let v = if d.year() >= 2017 { format!("0.{:04}", 6500 + x) } else { format!("1.{:04}", 100 + x) };
                     cal.days.insert(d, Obs::Published(v));
                 }
